@@ -89,6 +89,7 @@ type FuncSpec struct {
 	Props    []string
 	Requires []Clause
 	Ensures  []Clause
+	Trusts   []Clause // postconditions assumed at call sites but not checked against the body (listed as assumptions)
 	Loops    map[int]*LoopSpec
 	Lets     []LetSpec
 	Inline   bool
@@ -98,6 +99,7 @@ type FuncSpec struct {
 	Modifies []string // heap component patterns; nil = unspecified (derive), ["nothing"]
 	HasMod   bool
 	Replay   *ReplaySpec
+	Replays  map[string]*ReplaySpec // per clause label
 	Track    []string
 	Asserts  map[string][]Clause // at call sites: "call <callee>" -> clauses
 	Mode     string            // SEQ (default) or INT
@@ -375,7 +377,7 @@ func (ss *SpecSet) parseFile(file, pkg, src string) error {
 				return fail(sl.line, "axiom: %v", err)
 			}
 			ss.Axioms = append(ss.Axioms, &AxiomSpec{Pkg: pkg, Name: strings.TrimSpace(rest[:c]), E: e, Text: strings.TrimSpace(rest[c+1:]), Props: props})
-		case "requires", "ensures", "invariant", "decreases", "assert":
+		case "requires", "ensures", "invariant", "decreases", "assert", "trusts":
 			mode := ""
 			label := ""
 			r := strings.TrimSpace(rest)
@@ -414,6 +416,8 @@ func (ss *SpecSet) parseFile(file, pkg, src string) error {
 				curF.Requires = append(curF.Requires, cl)
 			case curF != nil && word == "ensures":
 				curF.Ensures = append(curF.Ensures, cl)
+			case curF != nil && word == "trusts":
+				curF.Trusts = append(curF.Trusts, cl)
 			default:
 				return fail(sl.line, "%s without func/lemma", word)
 			}
@@ -493,6 +497,12 @@ func (ss *SpecSet) parseFile(file, pkg, src string) error {
 			}
 			rs := &ReplaySpec{}
 			r := strings.TrimSpace(rest)
+			rlabel := ""
+			if strings.HasPrefix(r, "[") {
+				cl := strings.Index(r, "]")
+				rlabel = r[1:cl]
+				r = strings.TrimSpace(r[cl+1:])
+			}
 			if op := strings.Index(r, "("); op >= 0 {
 				rs.Driver = strings.TrimSpace(r[:op])
 				inner := r[op+1 : strings.LastIndex(r, ")")]
@@ -511,7 +521,14 @@ func (ss *SpecSet) parseFile(file, pkg, src string) error {
 			} else {
 				rs.Driver = r
 			}
-			curF.Replay = rs
+			if rlabel != "" {
+				if curF.Replays == nil {
+					curF.Replays = map[string]*ReplaySpec{}
+				}
+				curF.Replays[rlabel] = rs
+			} else {
+				curF.Replay = rs
+			}
 		case "guarded_by":
 			if curType == nil {
 				return fail(sl.line, "guarded_by outside type")
